@@ -19,6 +19,7 @@ N8  list(genexp)            list(E for ..)                                  ->  
 from __future__ import annotations
 
 import ast
+import os
 import copy
 from typing import Optional
 
@@ -617,6 +618,9 @@ def _inline_private_helpers(t: ast.Module) -> None:
             t.body[idx] = R().visit(st)
 
 
+# names defined more than once in the package (set by model.Program._load): possibly overridden methods, never spliced
+MULTI_DEF: frozenset = frozenset()
+
 # methods the rules address by name: never dissolved into their callers
 ANCHOR_METHODS = {
     "__error_check__", "__should_stop__", "__set_keyword_arguments__", "__check_input__", "__check_modes__", "__get_mode__",
@@ -648,7 +652,7 @@ def _inline_single_use_methods(t: ast.Module) -> None:
             methods = {m.name: m for m in cls.body if isinstance(m, ast.FunctionDef)}
             done = False
             for name, callee in methods.items():
-                if not name.startswith("_") or callee.decorator_list or name in ANCHOR_METHODS or \
+                if not name.startswith("_") or callee.decorator_list or name in ANCHOR_METHODS or name in MULTI_DEF or \
                         (name.startswith("__") and name.endswith("__") and name[2:-2] in _DUNDERS):
                     continue
                 a = callee.args
@@ -751,6 +755,228 @@ def _inline_single_use_methods(t: ast.Module) -> None:
                 break
 
 
+def _own_stmt_lists(fn):
+    """every statement list of fn's own body (not of nested function / class definitions)"""
+    out = []
+
+    def rec(stmts):
+        out.append(stmts)
+        for st in stmts:
+            if isinstance(st, (ast.FunctionDef, ast.AsyncFunctionDef, ast.ClassDef)):
+                continue
+            for f in ("body", "orelse", "finalbody"):
+                bb = getattr(st, f, None)
+                if isinstance(bb, list) and bb and isinstance(bb[0], ast.stmt):
+                    rec(bb)
+            for h in getattr(st, "handlers", []) or []:
+                rec(h.body)
+            for c in getattr(st, "cases", []) or []:
+                rec(c.body)
+    rec(fn.body)
+    return out
+
+
+def _splice_call(caller, stmts, i_, st, call, callee, is_method) -> bool:
+    """N17: replace the statement `st` (an expression statement, a single-target assignment or a return whose value is the
+    call) by the callee's body: arguments are bound to the parameters in evaluation order (substituted when they are plain
+    names / attribute chains / constants and the parameter is never rebound, else through a fresh local), callee locals are
+    renamed when they clash with the caller's names.  A callee with early returns is spliced only into `return f(..)`."""
+    a = callee.args
+    if a.vararg or a.kwarg or a.posonlyargs:
+        return False
+    if is_method and (not a.args or a.args[0].arg != "self"):
+        return False
+    body = [s_ for s_ in callee.body if not (isinstance(s_, ast.Expr) and isinstance(s_.value, ast.Constant))]
+    if not body:
+        return False
+    inner = [x for s_ in body for x in ast.walk(s_)]
+    if any(isinstance(x, (ast.Yield, ast.YieldFrom, ast.Await, ast.Nonlocal, ast.Global, ast.FunctionDef, ast.AsyncFunctionDef,
+                          ast.ClassDef, ast.Lambda, ast.Try, ast.With)) for x in inner):
+        return False
+    if any(isinstance(x, ast.Name) and x.id in ("super", "locals", "vars", "globals", "__class__") for x in inner):
+        return False
+    rets = [x for x in inner if isinstance(x, ast.Return)]
+    final_ret = body[-1] if isinstance(body[-1], ast.Return) else None
+    early = [r for r in rets if r is not final_ret]
+    if early and not isinstance(st, ast.Return):
+        return False
+    if early and any(isinstance(x, (ast.For, ast.While)) and any(isinstance(y, ast.Return) for y in ast.walk(x)) for x in inner):
+        pass        # a return inside a loop is still a return of the caller when spliced into `return f(..)`
+    pos = [x.arg for x in a.args[(1 if is_method else 0):]]
+    params = pos + [x.arg for x in a.kwonlyargs]
+    defaults = dict(zip(pos[len(pos) - len(a.defaults):], a.defaults)) if a.defaults else {}
+    for x, d in zip(a.kwonlyargs, a.kw_defaults):
+        if d is not None:
+            defaults[x.arg] = d
+    if len(call.args) > len(pos) or any(isinstance(z, ast.Starred) for z in call.args):
+        return False
+    bind = []          # in evaluation order
+    seen = set()
+    for p_, v_ in zip(pos, call.args):
+        bind.append((p_, v_)); seen.add(p_)
+    for k in call.keywords:
+        if k.arg is None or k.arg not in params or k.arg in seen:
+            return False
+        bind.append((k.arg, k.value)); seen.add(k.arg)
+    for p_ in params:
+        if p_ not in seen:
+            if p_ not in defaults or not isinstance(defaults[p_], ast.Constant):
+                return False
+            bind.append((p_, defaults[p_]))
+    stored = {x.id for x in inner if isinstance(x, ast.Name) and isinstance(x.ctx, (ast.Store, ast.Del))}
+    caller_names = {x.id for x in ast.walk(caller) if isinstance(x, ast.Name)} | {x.arg for x in caller.args.args + caller.args.kwonlyargs}
+    tag = callee.name.strip("_") or "h"
+    subst, pre, ren = {}, [], {}
+    impure_seen = False
+    for p_, v_ in bind:
+        simple = _arg_ok(v_) and p_ not in stored
+        if simple and not impure_seen:
+            subst[p_] = v_
+        else:
+            fresh = f"{p_}__{tag}" if (p_ in caller_names) else p_
+            while fresh in caller_names and fresh != p_:
+                fresh += "_"
+            ren[p_] = fresh
+            pre.append(_loc(ast.Assign(targets=[ast.Name(id=fresh, ctx=ast.Store())], value=copy.deepcopy(v_)), st))
+            if not _effect_free(v_):
+                impure_seen = True
+    for n_ in stored:
+        if n_ not in ren and n_ not in subst and n_ in caller_names:
+            fresh = f"{n_}__{tag}"
+            while fresh in caller_names:
+                fresh += "_"
+            ren[n_] = fresh
+    # a substituted argument must not be changed by the callee body before its last use: only names/attribute chains that the
+    # body does not store to
+    body_attr_stores = {ast.unparse(x) for x in inner if isinstance(x, ast.Attribute) and isinstance(x.ctx, (ast.Store, ast.Del))}
+    for p_, v_ in list(subst.items()):
+        txt = ast.unparse(v_)
+        if any(txt == b or b.startswith(txt + ".") or txt.startswith(b + ".") for b in body_attr_stores) or \
+                (isinstance(v_, ast.Name) and v_.id in stored):
+            fresh = f"{p_}__{tag}" if p_ in caller_names else p_
+            ren[p_] = fresh
+            pre.append(_loc(ast.Assign(targets=[ast.Name(id=fresh, ctx=ast.Store())], value=copy.deepcopy(v_)), st))
+            del subst[p_]
+
+    class S(ast.NodeTransformer):
+        def visit_Name(self, nn):
+            if nn.id in subst and isinstance(nn.ctx, ast.Load):
+                return _loc(copy.deepcopy(subst[nn.id]), nn)
+            if nn.id in ren:
+                return ast.copy_location(ast.Name(id=ren[nn.id], ctx=nn.ctx), nn)
+            return nn
+    new_body = list(pre)
+    if isinstance(st, ast.Return):
+        new_body += [S().visit(copy.deepcopy(s_)) for s_ in body]
+        if final_ret is None:
+            new_body.append(_loc(ast.Return(value=ast.Constant(value=None)), st))
+    else:
+        new_body += [S().visit(copy.deepcopy(s_)) for s_ in body if s_ is not final_ret]
+        if final_ret is not None and final_ret.value is not None:
+            val = S().visit(copy.deepcopy(final_ret.value))
+            if isinstance(st, ast.Assign):
+                new_body.append(_loc(ast.Assign(targets=st.targets, value=val), st))
+            elif not _effect_free(val):
+                new_body.append(_loc(ast.Expr(value=val), st))
+        elif isinstance(st, ast.Assign):
+            new_body.append(_loc(ast.Assign(targets=st.targets, value=ast.Constant(value=None)), st))
+    for nb in new_body:
+        ast.copy_location(nb, st)
+        ast.fix_missing_locations(nb)
+    stmts[i_:i_ + 1] = new_body or [ast.copy_location(ast.Pass(), st)]
+    return True
+
+
+def _splice_helpers(t: ast.Module) -> None:
+    """N17 driver: private module-level functions and private non-anchor methods that are only ever *called* (at statement
+    level: `f(..)`, `x = f(..)`, `return f(..)`) at most four times are spliced into their callers and removed."""
+    MAX_USES = 4
+
+    def stmt_call(st):
+        if isinstance(st, ast.Expr) and isinstance(st.value, ast.Call):
+            return st.value
+        if isinstance(st, ast.Assign) and len(st.targets) == 1 and isinstance(st.value, ast.Call):
+            return st.value
+        if isinstance(st, ast.Return) and isinstance(st.value, ast.Call):
+            return st.value
+        return None
+
+    for _round in range(6):
+        changed = False
+        # ---- module-level private functions
+        funcs = {st.name: st for st in t.body if isinstance(st, ast.FunctionDef) and st.name.startswith("_")
+                 and not st.name.startswith("__") and not st.decorator_list}
+        for name, callee in list(funcs.items()):
+            refs = [n for n in ast.walk(t) if isinstance(n, ast.Name) and n.id == name and isinstance(n.ctx, ast.Load)]
+            if not refs or len(refs) > MAX_USES:
+                continue
+            if any(isinstance(n, ast.Name) and n.id == name for n in ast.walk(callee) if n is not callee):
+                continue        # recursive
+            sites = []
+            for fn in [n for n in ast.walk(t) if isinstance(n, ast.FunctionDef) and n is not callee]:
+                for stmts in _own_stmt_lists(fn):
+                    for i_, st in enumerate(stmts):
+                        c = stmt_call(st)
+                        if c is not None and isinstance(c.func, ast.Name) and c.func.id == name and c.func in refs:
+                            sites.append((fn, stmts, st, c))
+            if len(sites) != len(refs):
+                continue        # referenced as a value or inside an expression somewhere
+            ok_all = True
+            for (fn, stmts, st, c) in sites:
+                i_ = stmts.index(st)
+                if not _splice_call(fn, stmts, i_, st, c, callee, False):
+                    ok_all = False
+                    break
+            if ok_all:
+                t.body = [x for x in t.body if x is not callee]
+            changed = changed or bool(sites)
+            if changed:
+                break
+        if changed:
+            continue
+        # ---- private methods
+        for cls in [n for n in t.body if isinstance(n, ast.ClassDef)]:
+            methods = {m.name: m for m in cls.body if isinstance(m, ast.FunctionDef)}
+            for name, callee in methods.items():
+                if not name.startswith("_") or callee.decorator_list or name in ANCHOR_METHODS or name in MULTI_DEF or \
+                        (name.startswith("__") and name.endswith("__")):
+                    continue
+                refs = [n for n in ast.walk(t) if isinstance(n, ast.Attribute) and n.attr == name]
+                if not refs or len(refs) > MAX_USES:
+                    continue
+                if any(not (isinstance(r.value, ast.Name) and r.value.id == "self") for r in refs):
+                    continue
+                if any(r in set(ast.walk(callee)) for r in refs):
+                    continue    # recursive
+                # overridden / defined in a subclass elsewhere in the module: leave alone
+                if sum(1 for c2 in t.body if isinstance(c2, ast.ClassDef) for m in c2.body
+                       if isinstance(m, ast.FunctionDef) and m.name == name) != 1:
+                    continue
+                sites = []
+                for fn in [m for m in methods.values() if m is not callee]:
+                    for stmts in _own_stmt_lists(fn):
+                        for st in stmts:
+                            c = stmt_call(st)
+                            if c is not None and c.func in refs:
+                                sites.append((fn, stmts, st, c))
+                if len(sites) != len(refs):
+                    continue
+                ok_all = True
+                for (fn, stmts, st, c) in sites:
+                    if not _splice_call(fn, stmts, stmts.index(st), st, c, callee, True):
+                        ok_all = False
+                        break
+                if ok_all:
+                    cls.body = [m for m in cls.body if m is not callee]
+                changed = changed or bool(sites)
+                if changed:
+                    break
+            if changed:
+                break
+        if not changed:
+            break
+
+
 def normalize_module(tree: ast.Module) -> ast.Module:
     """Returns a canonicalised deep copy of the module tree."""
     t = copy.deepcopy(tree)
@@ -758,6 +984,8 @@ def normalize_module(tree: ast.Module) -> ast.Module:
     if isinstance(t, ast.Module):
         _inline_private_helpers(t)
         _inline_single_use_methods(t)
+        if not os.environ.get("PVLINT_NO_SPLICE"):
+            _splice_helpers(t)
     for n in ast.walk(t):
         if isinstance(n, ast.FunctionDef):
             _inline_closures(n)
